@@ -143,6 +143,10 @@ def cfgHandle (op : String) (j : Json) : R Json := do
       | none => jStr "fuel"
       | some none => Json.null
       | some (some t) => jTree t) ws)
+  | "cfg.cykTable" =>     -- G is a grammar in normal form: the cells of the recogniser's table, per word
+    let ws ← (← asArr (← field j "words")).mapM asStrList
+    pure (jList (fun (w : List String) =>
+      jList (fun (e : (Nat × Nat) × List String) => Json.arr #[jNat e.1.1, jNat e.1.2, jList jStr e.2]) (G.cykTable w)) ws)
   | "cfg.objRun" =>
     let ops ← (← asArr (← field j "ops")).mapM asObjOp
     pure (Json.arr (objRun G {} ops).toArray)
